@@ -74,6 +74,10 @@ def gen_order(rnd, rules, rev, depth=0):
         else:
             toks = [head] if rnd.chance(60) else [t for t in r["toks"] if t != "~"]
             kids = r["children"]
+            if not kids and "~" not in r["toks"] and RL.fully_keyed(r) and rnd.chance(35):
+                # an end-anchored entry ('undo system tcam acl$' in the shipped files): the line ends right after the rule's words
+                full = list(r["toks"])
+                toks = full[:-1] + [(full[-1] + "$") if full[-1] != "*" else "*/\\S+$/"]
         ch = gen_order(rnd, kids, rev, depth + 1) if kids and rnd.chance(70) else []
         out.append(orule(toks, ch))
         plain.append(toks)
@@ -89,6 +93,17 @@ def gen_order(rnd, rules, rev, depth=0):
     return out
 
 
+def _om(toks, row):
+    """reference match of an ordering entry; a trailing '$' on the last token anchors the end of the line"""
+    last = toks[-1]
+    if last.endswith("$") or last == "*/\\S+$/":
+        plain_toks = toks[:-1] + ["*" if last == "*/\\S+$/" else last[:-1]]
+        if len(row.split(" ")) != len(plain_toks):
+            return None
+        return ref_match(plain_toks, row)
+    return ref_match(toks, row)
+
+
 def ref_order(row, direct, olist, rev):
     """-> (rank, kind, child_list); kind tells which list the rank's index refers to"""
     removal = not direct
@@ -99,11 +114,11 @@ def ref_order(row, direct, olist, rev):
         if r["glob"]:
             children.append(dict(r, _src="g"))
         if r["order_reverse"]:
-            if removal and not pinned and ref_match(r["toks"], row) is not None:
+            if removal and not pinned and _om(r["toks"], row) is not None:
                 rank, src, pinned = i, r.get("_src", "l"), True
             continue
-        m_direct = ref_match(r["toks"], row) is not None
-        m_rev = row.startswith(rev + " ") and ref_match(r["toks"], row[len(rev) + 1:]) is not None
+        m_direct = _om(r["toks"], row) is not None
+        m_rev = row.startswith(rev + " ") and _om(r["toks"], row[len(rev) + 1:]) is not None
         if m_direct or m_rev:
             if not pinned and src is None:
                 rank, src = (i if direct else -i), r.get("_src", "l")
@@ -114,7 +129,7 @@ def ref_order(row, direct, olist, rev):
 # ------------------------------------------------------------------ strategies
 def _gen_case(rnd):
     vendor = rnd.choice(VENDORS)
-    rules = RL.gen_rules(rnd, opts={"logics": ("common.undo_redo",), "rewrite": False})
+    rules = RL.gen_rules(rnd, opts={"logics": ("common.undo_redo",), "rewrite": False, "comments": True})
     ctx = RL.Ctx(rules)
     from_registry_rev = {"huawei": "undo", "h3c": "undo"}.get(vendor, "no")
     order = gen_order(rnd, rules, from_registry_rev)
@@ -234,6 +249,8 @@ def _gen(case):
     ctx = RL.Ctx(rules)
     otext = "\n".join(order_lines(case["order"])) + "\n"
     labels = ["gen", "vendor:" + vendor]
+    if "$" in otext:
+        labels.append("end-anchored-entry")
     if case.get("prior"):
         sut.make_rb(RL.rule_text(rules), case["prior"], ordering_text=otext)
         labels.append("prior-vendor")
@@ -249,11 +266,28 @@ def _gen(case):
         d2, pt2 = sut.diff_and_patch(vendor, old, new, rb)
     finally:
         P.PatchTree.sort = orig
+    # comments are documentation: asking for them must not move any command
+    if any(r.get("comment") for r in _all_rules(rules)):
+        dc, ptc = sut.diff_and_patch(vendor, old, new, rb, add_comments=True)
+
+        def strip(p):
+            return tuple(x.split(" !!note-")[0] for x in p)
+        with_c = [strip(p) for p in _paths(ptc)]
+        if with_c != [tuple(p) for p in _paths(pt)]:
+            raise Violation("comments-move-commands", f"with comments the commands come out as {with_c!r}, without as {_paths(pt)!r}"[:700], det)
+        if any(" !!note-" in x for p in _paths(ptc) for x in p):
+            labels.append("commented-command")
     if Counter(_paths(pt)) != Counter(_paths(pt2)):
         raise Violation("not-a-permutation", "sorting the patch lost or duplicated a command", det)
     if _paths(pt) != _paths(pt2):
         labels.append("sort-changed-order")
     return labels
+
+
+def _all_rules(rules):
+    for r in rules:
+        yield r
+        yield from _all_rules(r["children"])
 
 
 def _unordered(t):
@@ -287,6 +321,29 @@ def _config(case):
             raise Violation("order-config-unstable", f"rows no ordering rule mentions changed their relative order: {unm!r}", det)
     if list(out) != list(t):
         labels.append("reordered")
+    # the order inside a block depends on the block alone (its rules are handed down by its header), not on where the header stands
+    # among its siblings or on unrelated lines: (i) every nested block of the result equals the result of ordering that block on its
+    # own with the rules its header hands down; (ii) reversing the top-level rows of the input changes no nested block
+    def nested(o_, src, res, path=()):
+        for row, ch in src.items():
+            if not ch:
+                continue
+            (_, _, crb, _) = o_.get_order(row, not row.startswith(rev))
+            co = Orderer(crb, hw.vendor)
+            alone = co.order_config(ch)
+            if _seq(alone) != _seq(res[row]):
+                raise Violation("order-config-nested", f"block {path + (row,)!r}: inside the whole configuration it comes out as "
+                                f"{list(res[row])!r}, ordered on its own (same rules) as {list(alone)!r}", det)
+            if list(alone) != list(ch):
+                labels.append("nested-reordered")
+            nested(co, ch, res[row], path + (row,))
+    nested(o, t, out)
+    rt = odict(reversed(list(t.items())))
+    outr = o.order_config(rt)
+    for row in t:
+        if _seq(outr[row]) != _seq(out[row]):
+            raise Violation("order-config-nested", f"block {row!r} is ordered differently when the top-level rows are listed in reverse: "
+                            f"{list(outr[row])!r} vs {list(out[row])!r}", det)
     return labels
 
 
